@@ -70,6 +70,22 @@ type Destination struct {
 
 // New creates a destination object. Note that it still needs to be told to run via Run().
 func New(routeName string, matcher matcher.Matcher, addr, spoolDir string, spool, pickle bool, periodFlush, periodReConn time.Duration, connBufSize, ioBufSize, spoolBufSize int, spoolMaxBytesPerFile, spoolSyncEvery int64, spoolSyncPeriod, spoolSleep, unspoolSleep time.Duration) (*Destination, error) {
+	// these end up in time.NewTicker and bufio-like constructors, which panic on zero or negative values
+	if periodFlush <= 0 {
+		return nil, errors.New("flush interval must be positive")
+	}
+	if periodReConn <= 0 {
+		return nil, errors.New("reconnect interval must be positive")
+	}
+	if connBufSize < 0 {
+		return nil, errors.New("connection buffer size must not be negative")
+	}
+	if ioBufSize <= 0 {
+		return nil, errors.New("io buffer size must be positive")
+	}
+	if spool && (spoolSyncPeriod <= 0 || spoolBufSize < 0) {
+		return nil, errors.New("spool sync period must be positive and spool buffer size must not be negative")
+	}
 	key := util.Key(routeName, addr)
 	addr, instance := addrInstanceSplit(addr)
 	dest := &Destination{
